@@ -144,3 +144,40 @@ macro_rules! cover {
         $crate::src::Src::cover($s, $c, $name);
     }};
 }
+
+/// harness with the float-primitive tag stubs of `u7` applied (value operators).  Float arithmetic
+/// reached through the operator traits in generic code (`Add::add` .. `Neg::neg` on f64) is stubbed
+/// as well: proving two float multiplier / divider circuits equal is out of reach of the SAT back
+/// end, and the contract is "calls the primitive with the documented operands".
+/// Optional extra stubs: `vharness!(name, unwind = N, extra = [{stub ; original path} ..], |s| {..})`.
+#[macro_export]
+macro_rules! vharness {
+    ($name:ident, unwind = $u:expr, |$s:ident| $body:block) => {
+        $crate::vharness!($name, unwind = $u, extra = [], |$s| $body);
+    };
+    ($name:ident, unwind = $u:expr, extra = [$({ $stub:path ; $($orig:tt)+ })*], |$s:ident| $body:block) => {
+        pub fn $name<S: $crate::src::Src>($s: &mut S) $body
+        #[cfg(kani)]
+        mod $name {
+            #[kani::proof]
+            #[kani::stub(std::fmt::format, $crate::src::stub_format)]
+            #[kani::stub(f64::sin, $crate::u7::s_sin)] #[kani::stub(f64::cos, $crate::u7::s_cos)] #[kani::stub(f64::tan, $crate::u7::s_tan)]
+            #[kani::stub(f64::asin, $crate::u7::s_asin)] #[kani::stub(f64::acos, $crate::u7::s_acos)] #[kani::stub(f64::atan, $crate::u7::s_atan)]
+            #[kani::stub(f64::sinh, $crate::u7::s_sinh)] #[kani::stub(f64::cosh, $crate::u7::s_cosh)] #[kani::stub(f64::tanh, $crate::u7::s_tanh)]
+            #[kani::stub(f64::asinh, $crate::u7::s_asinh)] #[kani::stub(f64::acosh, $crate::u7::s_acosh)] #[kani::stub(f64::atanh, $crate::u7::s_atanh)]
+            #[kani::stub(f64::exp, $crate::u7::s_exp)] #[kani::stub(f64::cbrt, $crate::u7::s_cbrt)] #[kani::stub(f64::ln, $crate::u7::s_ln)]
+            #[kani::stub(f64::log2, $crate::u7::s_log2)] #[kani::stub(f64::log10, $crate::u7::s_log10)] #[kani::stub(f64::sqrt, $crate::u7::s_sqrt)]
+            #[kani::stub(f64::powf, $crate::u7::s_powf)] #[kani::stub(f64::atan2, $crate::u7::s_atan2)] #[kani::stub(f64::powi, $crate::u7::s_powi)]
+            #[kani::stub(<f64 as core::ops::Add<f64>>::add, $crate::u7::s_add)] #[kani::stub(<f64 as core::ops::Sub<f64>>::sub, $crate::u7::s_sub)]
+            #[kani::stub(<f64 as core::ops::Mul<f64>>::mul, $crate::u7::s_mul)] #[kani::stub(<f64 as core::ops::Div<f64>>::div, $crate::u7::s_div)]
+            #[kani::stub(<f64 as core::ops::Neg>::neg, $crate::u7::s_neg)]
+            $(#[kani::stub($($orig)+, $stub)])*
+            #[kani::unwind($u)]
+            fn proof() {
+                let mut k = $crate::src::K;
+                super::$name(&mut k);
+                kani::cover!(true, "end-reached");
+            }
+        }
+    };
+}
